@@ -82,6 +82,11 @@ CHECKS = {
             "Every input is transpiled inside a forked child with sys.addaudithook armed around parse/emit (any exec/import/open/os/subprocess/socket event is a violation), canary files that only exist if user expressions were evaluated, the rule 'ValueError, or SyntaxError only when ast.parse rejects the text', a soft RLIMIT_CPU advanced by 10 s per case (the kernel ends a worker stuck in big-int arithmetic) and a fingerprint of module-level containers.",
             "compile audit events from ast.parse are not judged; atheris part is skipped (counted) if the wheel cannot be installed.",
             "DESIGN.md 3/C11"),
+    "C04": ("translation_validation",
+            "generated operation histories over Led/RGBLed/Servo/DCMotor (literal and tape-derived run-time arguments, getter reads) compiled once and run with several tapes; differential against the instrumented host classes; clamp-range monitor for out-of-range histories",
+            "Each history is compiled for the mock core and its per-pin signal (PWM duty, HIGH/LOW, servo angle/pulse, motor direction and duty +-1), delays (< 1 ms apart) and every getter value are compared with what the real host classes compute for the same calls and the same tape; a second family of histories with out-of-range arguments checks that no analogWrite/servo command leaves the documented limits (built with ASan/UBSan).",
+            "Mock core observes commands, not electrical behaviour; RGB fade ties and sub-PWM-resolution motor speeds are recorded findings excluded by construction.",
+            "DESIGN.md 3/C04"),
 }
 
 PENDING = {}
